@@ -451,7 +451,9 @@ func family(c *engine.Ctx, name string, vs []value, eq equaler, checksum func(m 
 		if vs[i].Star > 0 && vs[i].Star != i+1 {
 			continue // wide values, quick tier: the row of the family's base only
 		}
-		c.Case(func() any { return map[string]any{"row": vs[i].Label, "triples-with-this-first-element": len(vs) * len(vs)} }, func(t *engine.T) *engine.Violation {
+		c.Case(func() any {
+			return map[string]any{"row": vs[i].Label, "triples-with-this-first-element": len(vs) * len(vs)}
+		}, func(t *engine.T) *engine.Violation {
 			mat = make([][]bool, len(vs)) // per run of the case (the rows depend on the map iteration order of the run)
 			ri := row(i)
 			for j := range vs {
